@@ -1,4 +1,4 @@
-//@unit U9 props=C01,C02,C03,C08,C13,C14,C15 body of the 'messages loop of SendChannelReliable::get_packets_to_send (renet/src/channel/reliable.rs, rule D6)
+//@unit U9 props=C01,C02,C03,C08,C13,C14,C15,C16 body of the 'messages loop of SendChannelReliable::get_packets_to_send (renet/src/channel/reliable.rs, rule D6)
 #![feature(allocator_api)]
 #![allow(unused_imports, dead_code, unused_variables, unused_mut)]
 use vstd::prelude::*;
